@@ -359,6 +359,14 @@ func RunCheck(o CheckOpts) int {
 			undecided++
 			lines = append(lines, fmt.Sprintf("UNDECIDED property=%s obligation=%s reason=%s", o.Property, ob.Name, ob.Reason))
 		case "failed", "unknown":
+			if ob.Kind == "og-schema" {
+				// the code no longer has the access structure the thread-modular invariant is stated over
+				ob.Result = "undecided"
+				ob.Reason = "shared-access structure differs from the action schema of the interleaving invariant: " + ob.Clause
+				undecided++
+				lines = append(lines, fmt.Sprintf("UNDECIDED property=%s obligation=%s reason=%s", o.Property, ob.Name, ob.Reason))
+				continue
+			}
 			if ob.Kind == "anchor" || ob.Kind == "locks-declared" && false {
 				// the contract's target (call site, loop, return) no longer exists: cannot tell
 				ob.Result = "undecided"
